@@ -668,6 +668,11 @@ func (g *exprGen) tree(d int) *Tr {
 		for i := rn.Intn(3); i > 0; i-- {
 			t.sub = append(t.sub, g.tree(d-1))
 		}
+		if rn.Intn(5) == 0 { // longer argument lists (slice capacities 4, 8, 16 in the parser)
+			for i := 1 + rn.Intn(8); i > 0; i-- {
+				t.sub = append(t.sub, g.tree(0))
+			}
+		}
 		return t
 	case 8:
 		return &Tr{k: "member", sub: []*Tr{g.tree(d - 1)}, name: []string{"f", "g", "len"}[rn.Intn(3)]}
